@@ -48,8 +48,9 @@ fn main() {
     let mut iter_hist = [0usize; 10];
     for i in 0..n {
         let pert = *rng.pick(&[1e-4, 1e-3, 1e-2]);
-        let max_cons = *rng.pick(&[1usize, 2, 4, 8, 15]);
-        let sys = gen_planted(&mut rng, max_cons, pert, &SHAPES);
+        // (now and then a sketch several times larger: size-dependent paths)
+        let max_cons = if rng.chance(1, 40) { 90 } else { *rng.pick(&[1usize, 2, 4, 8, 15]) };
+        let sys = if rng.chance(1, 60) { gen_large_one_off(&mut rng) } else { gen_planted(&mut rng, max_cons, pert, &SHAPES) };
         let _ = i;
         systems += 1;
         let xs = sys.planted.clone().unwrap();
@@ -124,8 +125,22 @@ fn main() {
         // weakly determined plants (sigma_min/sigma_max below what Newton-Kantorovich needs for a ball of
         // this size): no clause of the property is guaranteed even in exact arithmetic; violations there
         // get their own signature suffix (reported under known finding F15)
-        let weak_all = smin_nz / smax < (3.0 * pert * (xs.len() as f64).sqrt()).max(0.05);
-        let wk = if weak_all { "-ill-conditioned" } else { "" };
+        let weak_all = smin_nz / smax < (3.0 * d0 / sys.scale.max(1e-9)).max(0.05);
+        // ... unless an independent reference iteration (dense damped Gauss-Newton with a finite-
+        // difference Jacobian, no code shared with the solver's derivative / sparse / stopping logic)
+        // does solve the same system from the same guess in a handful of rounds and stays within the
+        // 1.5x bound: then conditioning is no excuse
+        let reference_ok = || -> bool {
+            if xs.len() > 260 { return false; }
+            match reference_gauss_newton(&sys.reqs, &x0, sys.convergence_tolerance.max(1e-10), 8) {
+                Some((_, xr)) => {
+                    let d1: f64 = xr.iter().zip(&x0).map(|(a, b)| (a - b) * (a - b)).sum::<f64>().sqrt();
+                    d1 <= 1.5 * d0 + 1e-9 * sys.scale.max(1.0)
+                }
+                None => false,
+            }
+        };
+        let wk = if weak_all && !reference_ok() { "-ill-conditioned" } else { "" };
         match solve(&sys.reqs, sys.guesses.clone(), sys.config()) {
             Err(e) => bad(format!("solve fails ({:?}) although every guess is within {pert}*scale of an exact solution", e.error), format!("fails-near-solution{wk}:{}", kinds.join("+"))),
             Ok(o) => {
@@ -143,8 +158,8 @@ fn main() {
                         // weakly determined: full rank, but sigma_min/sigma_max below what Newton-Kantorovich
                         // needs for a 1e-2 ball (about 2*pert*sqrt(n)): the nearby solution's basin is smaller
                         // than the ball, in exact arithmetic too; the iterates slide along the weak direction
-                        let weak = smin_nz / smax < (3.0 * pert * (xs.len() as f64).sqrt()).max(0.05);
-                        let bucket = if under { "under-determined" } else if weak { "ill-conditioned" } else { "fully-determined" };
+                        let weak = smin_nz / smax < (3.0 * d0 / sys.scale.max(1e-9)).max(0.05);
+                        let bucket = if under { "under-determined" } else if weak && wk != "" { "ill-conditioned" } else { "fully-determined" };
                         bad(format!("result is {d1:.3e} from the guess, more than 1.5 x the distance {d0:.3e} from the guess to the planted solution (kinds: {})", kinds.join("+")), format!("jumps-away-{bucket}"));
                     }
                 }
